@@ -10,7 +10,7 @@ from engine.expr import Ex, norm, show, walk, alts
 from engine.intervals import dominating_facts
 from engine.mir import AnchorLost, callee_matches
 from engine.paths import paths, decided, outcome
-from engine.query import aggregates, calls_matching, where, ret_alts, switch_arms, const_assigned_in
+from engine.query import aggregates, calls_matching, where, ret_alts, switch_arms, const_assigned_in, single_bit
 from rules.C02 import flag_rules, _phi_defs
 from rules.shared_codec import tokens, writer_table
 
@@ -135,7 +135,7 @@ def flag_decode_rules(facts, rep):
             kinds = {}
             for val, dbb in defs:
                 fs = dominating_facts(f, ex, dbb)
-                utf8 = [x for x in fs if x[0] in ("Ne", "Eq") and x[1][0] == "bin" and x[1][1] == "BitAnd" and x[1][3][0] == "bin" and x[1][3][1] == "Shl" and x[1][3][3][2] == 11 and x[2][2] == 0]
+                utf8 = [x for x in fs if x[0] in ("Ne", "Eq") and x[1][0] == "bin" and x[1][1] == "BitAnd" and single_bit(x[1][3]) == 11 and x[2][2] == 0]
                 others = [x for x in fs if x not in utf8 and not (x[0] in ("Eq", "Ne") and x[1][0] == "discr") and x[0] != "truth"
                           and not (x[1][0] == "ok" and x[1][1][0] == "call" and x[1][1][1].endswith("read_u32"))]
                 flag = None
